@@ -58,9 +58,9 @@ var (
 	argsPool = []string{"--port", "8080", "-v"}
 	hostPool = []string{"a.example.com", "b.test", "c.example.org"}
 
-	cpuSet  = []uint64{100, 1, 5, 10, 15, 250, 1000, 1001}                          // milli cpu
-	memSet  = []uint64{128 << 20, 1, 7, 512 << 20, 1 << 30, 1000000007}             // bytes
-	stoSet  = []uint64{512 << 20, 1, 3, 1 << 30, 10 << 30, 999999999}               // bytes
+	cpuSet  = []uint64{100, 1, 5, 10, 15, 250, 1000, 1001}              // milli cpu
+	memSet  = []uint64{128 << 20, 1, 7, 512 << 20, 1 << 30, 1000000007} // bytes
+	stoSet  = []uint64{512 << 20, 1, 3, 1 << 30, 10 << 30, 999999999}   // bytes
 	portSet = []uint16{80, 8080, 81, 443, 53, 3306}
 	extSet  = []uint16{0, 80, 81, 8080, 30000}
 )
